@@ -7,6 +7,12 @@ package guardiansets
 // TestVerifGs      sequential op sequences on the real GuardianSets (updateGuardianSets, GetGuardianSet,
 //                  GetCurrentGuardianSet, NewGuardianSets, GetGuardianSetsFromChain, the ticker goroutine) against a
 //                  fake JSON-RPC chain; one line per op in $VERIF_OUT/explorer_gs.cases.
+// TestVerifGsHist  histories the two callers of updateGuardianSets really produce, everything through the real entry points:
+//                  start-up as main.go does it (GetGuardianSetsFromChain(0) -> NewGuardianSets), a chain that is many sets
+//                  ahead of the explorer (far-ahead lookups), lookups that are overtaken by other lookups / the ticker's
+//                  body while their chain request is held at a gate of the fake node (overlapping, repeated and contained
+//                  fetches), and a fake node that answers simultaneous requests in another order than they were made;
+//                  after every step every index is looked up.  $VERIF_OUT/explorer_hist.cases.
 // TestVerifGsRace  concurrent GetGuardianSet / GetCurrentGuardianSet readers against updateGuardianSets writers; run
 //                  with -race by checks/c19.py.  Every reader result is checked (set index = requested index, no panic);
 //                  the race detector's report, if any, is picked up from the test output by the check module.
@@ -26,6 +32,7 @@ import (
 	"net/http/httptest"
 	"os"
 	"path/filepath"
+	"sort"
 	"strconv"
 	"strings"
 	"sync"
@@ -86,6 +93,104 @@ type vChain struct {
 	closed  bool     // gate: while closed every request fails and nothing is logged
 	log     []string // observed requests with their answers, in order
 	srv     *httptest.Server
+
+	// gates on getGuardianSet requests (histories): a request that enters a gate is announced on `arrived` and answered
+	// (and logged) only after its `release` channel is closed
+	gmu      sync.Mutex
+	gateMode int // 0 none, 1 hold the next request (one-shot), 2 hold every request (reorder coordinator running)
+	arrived  chan *vHeld
+}
+
+type vHeld struct {
+	idx      uint32
+	release  chan struct{}
+	answered chan struct{}
+}
+
+func (c *vChain) arm(mode int) {
+	c.gmu.Lock()
+	c.gateMode = mode
+	c.gmu.Unlock()
+}
+
+func (c *vChain) enterGate(idx uint32) *vHeld {
+	c.gmu.Lock()
+	defer c.gmu.Unlock()
+	if c.gateMode == 0 {
+		return nil
+	}
+	if c.gateMode == 1 {
+		c.gateMode = 0
+	}
+	h := &vHeld{idx: idx, release: make(chan struct{}), answered: make(chan struct{})}
+	c.arrived <- h
+	return h
+}
+
+const (
+	vGrace   = 150 * time.Millisecond // quiescence: no further request arrived for this long while some are held
+	vSpacing = 30 * time.Millisecond  // between two answers of one batch (only when the client had several requests in flight)
+)
+
+// reorder runs f with every getGuardianSet request held at the gate; whenever no further request has arrived for vGrace the
+// held ones are answered highest index first.  A client that asks for one set after the other (the pinned code) only ever
+// has one request held, so nothing but the time of its answers changes; after two such single-request batches the gate
+// opens for the rest of f.  Returns the largest number of requests that were held at the same time.
+func (c *vChain) reorder(f func()) int {
+	c.arm(2)
+	stop := make(chan struct{})
+	fin := make(chan int)
+	go func() {
+		var held []*vHeld
+		var tc <-chan time.Time
+		batches, maxBatch, open := 0, 0, false
+		for {
+			select {
+			case h := <-c.arrived:
+				if open {
+					close(h.release)
+					continue
+				}
+				held = append(held, h)
+				tc = time.After(vGrace)
+			case <-tc:
+				sort.Slice(held, func(i, j int) bool { return held[i].idx > held[j].idx })
+				if len(held) > maxBatch {
+					maxBatch = len(held)
+				}
+				for i, h := range held {
+					close(h.release)
+					<-h.answered
+					if i < len(held)-1 {
+						time.Sleep(vSpacing)
+					}
+				}
+				held, tc = nil, nil
+				batches++
+				if batches >= 2 && maxBatch <= 1 {
+					open = true
+				}
+			case <-stop:
+				for _, h := range held {
+					close(h.release)
+				}
+				fin <- maxBatch
+				return
+			}
+		}
+	}()
+	f()
+	c.arm(0)
+	close(stop)
+	n := <-fin
+	for {
+		select {
+		case h := <-c.arrived:
+			close(h.release)
+		default:
+			return n
+		}
+	}
 }
 
 func vNewChain() *vChain {
@@ -93,7 +198,7 @@ func vNewChain() *vChain {
 	if err != nil {
 		panic(err)
 	}
-	c := &vChain{abi: parsed, keys: map[uint32][]eth_common.Address{}, failAt: map[uint32]bool{}}
+	c := &vChain{abi: parsed, keys: map[uint32][]eth_common.Address{}, failAt: map[uint32]bool{}, arrived: make(chan *vHeld, 4096)}
 	c.srv = httptest.NewServer(http.HandlerFunc(c.serve))
 	return c
 }
@@ -138,15 +243,23 @@ func (c *vChain) serve(w http.ResponseWriter, r *http.Request) {
 		fail("bad calldata")
 		return
 	}
+	m, err := c.abi.MethodById(data[:4])
+	if err != nil {
+		fail("unknown method")
+		return
+	}
+	if m.Name == "getGuardianSet" {
+		if args, e := m.Inputs.Unpack(data[4:]); e == nil && len(args) == 1 {
+			if h := c.enterGate(args[0].(uint32)); h != nil {
+				<-h.release
+				defer close(h.answered)
+			}
+		}
+	}
 	c.mu.Lock()
 	defer c.mu.Unlock()
 	if c.closed {
 		fail("closed")
-		return
-	}
-	m, err := c.abi.MethodById(data[:4])
-	if err != nil {
-		fail("unknown method")
 		return
 	}
 	var out []byte
@@ -261,7 +374,10 @@ func (g *vGen) state(gs *GuardianSets) string {
 	return fmt.Sprintf("cur=%d list=%s", gs.currentGuardianSetIndex, vSets(gs.guardianSetLists))
 }
 
-func (g *vGen) opUpd(cid string, gs *GuardianSets, in []*common.GuardianSet) {
+func (g *vGen) opUpd(cid string, gs *GuardianSets, in []*common.GuardianSet) { g.opUpdX(cid, gs, in, "") }
+
+// opUpdX: extra = " src=fetch" when `in` is what the real GetGuardianSetsFromChain(current+1) just returned (the ticker's body)
+func (g *vGen) opUpdX(cid string, gs *GuardianSets, in []*common.GuardianSet, extra string) {
 	res := func() (r string) {
 		defer func() {
 			if e := recover(); e != nil {
@@ -273,7 +389,23 @@ func (g *vGen) opUpd(cid string, gs *GuardianSets, in []*common.GuardianSet) {
 		}
 		return "nil"
 	}()
-	fmt.Fprintf(g.w, "gsupd %s in=%s res=%s %s\n", cid, vSets(in), res, g.state(gs))
+	fmt.Fprintf(g.w, "gsupd %s in=%s res=%s %s%s\n", cid, vSets(in), res, g.state(gs), extra)
+}
+
+func vCallGet(gs *GuardianSets, idx int) (got *common.GuardianSet, r string) {
+	defer func() {
+		if e := recover(); e != nil {
+			got, r = nil, "panic"
+		}
+	}()
+	s, err := gs.GetGuardianSet(context.Background(), idx)
+	if err != nil {
+		if s != nil {
+			return nil, "errnonnil"
+		}
+		return nil, "err"
+	}
+	return s, "ok"
 }
 
 func (g *vGen) opGet(cid string, gs *GuardianSets, ch chan *common.GuardianSet, idx int, dialOK bool) {
@@ -282,29 +414,51 @@ func (g *vGen) opGet(cid string, gs *GuardianSets, ch chan *common.GuardianSet, 
 	} else {
 		gs.ethRpcUrl = "verif-no-such-scheme://x"
 	}
-	var got *common.GuardianSet
-	res := func() (r string) {
-		defer func() {
-			if e := recover(); e != nil {
-				r = "panic"
-			}
-		}()
-		s, err := gs.GetGuardianSet(context.Background(), idx)
-		if err != nil {
-			if s != nil {
-				return "errnonnil"
-			}
-			return "err"
-		}
-		got = s
-		return "ok"
-	}()
+	got, res := vCallGet(gs, idx)
 	d := 0
 	if dialOK {
 		d = 1
 	}
 	fmt.Fprintf(g.w, "gsget %s idx=%d dial=%d chain=%s res=%s set=%s sent=%s %s\n", cid, idx, d, g.chain.takeLog(), res, vSet(got),
 		vSets(vDrain(ch)), g.state(gs))
+}
+
+// opGetOvertaken: GetGuardianSet(idx) runs in its own goroutine; its first getGuardianSet request is held at the fake node's
+// gate (barrier: the request has arrived, so `current` has been read and the lock released), then `others` - further
+// lookups, the ticker's body - run to completion on the harness goroutine, then the held request is answered and the
+// lookup finishes with a batch that starts at the `current+1` it read earlier.  Written as a gsget line with cur0=.
+func (g *vGen) opGetOvertaken(cid string, gs *GuardianSets, ch chan *common.GuardianSet, idx int, others func()) {
+	gs.ethRpcUrl = g.chain.srv.URL
+	c0 := gs.currentGuardianSetIndex
+	g.chain.arm(1)
+	var got *common.GuardianSet
+	var res string
+	done := make(chan struct{})
+	go func() {
+		got, res = vCallGet(gs, idx)
+		close(done)
+	}()
+	var h *vHeld
+	select {
+	case h = <-g.chain.arrived:
+	case <-done:
+	case <-time.After(60 * time.Second):
+		g.t.Fatalf("%s: overtaken lookup of %d neither asked the chain nor returned", cid, idx)
+	}
+	g.chain.arm(0)
+	extra := ""
+	if h != nil {
+		others()
+		close(h.release)
+		select {
+		case <-done:
+		case <-time.After(60 * time.Second):
+			g.t.Fatalf("%s: overtaken lookup of %d did not return after its request was answered", cid, idx)
+		}
+		extra = fmt.Sprintf(" cur0=%d", c0)
+	}
+	fmt.Fprintf(g.w, "gsget %s idx=%d dial=1 chain=%s res=%s set=%s sent=%s %s%s\n", cid, idx, g.chain.takeLog(), res, vSet(got),
+		vSets(vDrain(ch)), g.state(gs), extra)
 }
 
 func (g *vGen) opCur(cid string, gs *GuardianSets) {
@@ -339,7 +493,7 @@ func (g *vGen) opFetch(cid string, gs *GuardianSets, from uint32) {
 	}()
 	fmt.Fprintf(g.w, "gsfetch %s from=%d chain=%s res=%s sets=%s\n", cid, from, g.chain.takeLog(), res, vSets(sets))
 	if res == "ok" {
-		g.opUpd(cid, gs, sets)
+		g.opUpdX(cid, gs, sets, " src=fetch")
 	}
 }
 
@@ -575,6 +729,271 @@ func (g *vGen) adversarial(steps int) {
 			if gs.currentGuardianSetIndex >= -1 && gs.currentGuardianSetIndex < 1<<20 {
 				g.opFetch(cid, gs, uint32(gs.currentGuardianSetIndex+1))
 			}
+		}
+	}
+}
+
+// ---------------------------------------------------------------- histories (TestVerifGsHist)
+
+// chain truth for a history: sets 0..n-1 with 1..maxKeys keys each (sizes differ from one set to the next); the contract's
+// current index starts at cur
+func (g *vGen) histChain(n int, cur int, maxKeys int) {
+	c := g.chain
+	c.mu.Lock()
+	defer c.mu.Unlock()
+	c.keys = map[uint32][]eth_common.Address{}
+	c.failAt = map[uint32]bool{}
+	c.failCur = false
+	c.cur = uint32(cur)
+	prev := 0
+	for i := 0; i < n; i++ {
+		k := 1 + g.r.Intn(maxKeys)
+		if k == prev {
+			k = 1 + k%maxKeys
+		}
+		prev = k
+		ks := make([]eth_common.Address, k)
+		for j := range ks {
+			ks[j] = g.addr()
+		}
+		c.keys[uint32(i)] = ks
+	}
+	c.log = nil
+}
+
+func (g *vGen) chainTo(cur int) {
+	g.chain.mu.Lock()
+	g.chain.cur = uint32(cur)
+	g.chain.mu.Unlock()
+}
+
+// boot: what main.go does - GetGuardianSetsFromChain(0), NewGuardianSets of the result.  `gated`: the fake node holds the
+// requests and answers simultaneous ones in descending index order (vChain.reorder).  Returns nil when the start-up failed.
+func (g *vGen) boot(cid string, ch chan *common.GuardianSet, gated bool) (*GuardianSets, int) {
+	var sets []*common.GuardianSet
+	res := "ok"
+	held := 0
+	run := func() {
+		func() {
+			defer func() {
+				if e := recover(); e != nil {
+					res = "panic"
+				}
+			}()
+			s, err := GetGuardianSetsFromChain(context.Background(), g.chain.srv.URL, eth_common.HexToAddress("0xc0"), 0)
+			if err != nil {
+				res = "err"
+				return
+			}
+			sets = s
+		}()
+	}
+	if gated {
+		held = g.chain.reorder(run)
+	} else {
+		run()
+	}
+	fmt.Fprintf(g.w, "gsfetch %s from=0 chain=%s res=%s sets=%s\n", cid, g.chain.takeLog(), res, vSets(sets))
+	if res != "ok" {
+		return nil, held
+	}
+	var gs *GuardianSets
+	nres := func() (s string) {
+		defer func() {
+			if e := recover(); e != nil {
+				s = "panic"
+			}
+		}()
+		gs = NewGuardianSets(sets, g.chain.srv.URL, zap.NewNop(), time.Hour, eth_common.HexToAddress("0xc0"), ch)
+		return "ok"
+	}()
+	if nres != "ok" {
+		fmt.Fprintf(g.w, "gsnew %s list=%s res=panic sent=- cur=0 list=- boot=1\n", cid, vSets(sets))
+		return nil, held
+	}
+	fmt.Fprintf(g.w, "gsnew %s list=%s res=ok sent=%s %s boot=1\n", cid, vSets(sets), vSets(vDrain(ch)), g.state(gs))
+	return gs, held
+}
+
+// every index the explorer knows (and GetCurrentGuardianSet): "the guardian set it returns for index i is always the set with index i"
+func (g *vGen) lookupAll(cid string, gs *GuardianSets, ch chan *common.GuardianSet, upTo int) {
+	if upTo > gs.currentGuardianSetIndex {
+		upTo = gs.currentGuardianSetIndex
+	}
+	for i := 0; i <= upTo; i++ {
+		g.opGet(cid, gs, ch, i, true)
+	}
+	g.opCur(cid, gs)
+}
+
+// histBoot: start-up over n sets, every index looked up; the chain moves on by m >= 2 sets and the explorer catches up in one
+// fetch of several sets (the ticker's body, or a lookup of the newest index, or a lookup of the one before it and then the
+// ticker's body); every index looked up again.  `gated` as in boot.  Returns the largest number of simultaneously held requests.
+func (g *vGen) histBoot(n, m, how int, gated bool) int {
+	cid := g.cid("boot")
+	g.histChain(n+m, n-1, 3)
+	ch := make(chan *common.GuardianSet, 256)
+	gs, held := g.boot(cid, ch, gated)
+	if gs == nil {
+		return held
+	}
+	g.lookupAll(cid, gs, ch, n+m)
+	g.chainTo(n + m - 1)
+	step := func() {
+		cur := gs.currentGuardianSetIndex
+		switch how {
+		case 0:
+			g.opFetch(cid, gs, uint32(cur+1))
+		case 1:
+			g.opGet(cid, gs, ch, n+m-1, true)
+		default:
+			g.opGet(cid, gs, ch, n+m-2, true)
+			g.opFetch(cid, gs, uint32(gs.currentGuardianSetIndex+1))
+		}
+	}
+	if gated {
+		if h := g.chain.reorder(step); h > held {
+			held = h
+		}
+	} else {
+		step()
+	}
+	g.lookupAll(cid, gs, ch, n+m)
+	return held
+}
+
+// histFar: the explorer starts with sets 0..prefix-1; by the time it looks again the chain is many sets ahead (no periodic
+// fetch in between - it runs every 15 minutes).  A lookup of an index `dist` ahead of the newest known set, then every index
+// of the chain, oldest first; then a second far-ahead lookup to the chain's end and every index again, newest first.
+func (g *vGen) histFar(prefix, dist, beyond int) {
+	cid := g.cid("far")
+	n := prefix + dist + beyond
+	g.histChain(n, prefix-1, 2)
+	ch := make(chan *common.GuardianSet, 256)
+	gs, _ := g.boot(cid, ch, false)
+	if gs == nil {
+		return
+	}
+	g.chainTo(n - 1)
+	g.opGet(cid, gs, ch, prefix-1+dist, true)
+	for i := 0; i < n; i++ {
+		g.opGet(cid, gs, ch, i, true)
+	}
+	g.opCur(cid, gs)
+	if beyond > 0 {
+		g.opGet(cid, gs, ch, n-1, true)
+	}
+	for i := n - 1; i >= 0; i-- {
+		g.opGet(cid, gs, ch, i, g.r.Intn(3) != 0)
+	}
+}
+
+var vOvertakers = []string{"lower-lookup", "same-lookup", "higher-lookup", "ticker-body", "two-lookups", "lower-lookup-then-ticker", "failed-lookup"}
+
+// histOverlap: start-up over n0 sets; the chain moves on by adv >= 2 sets; a lookup of index current+k is overtaken (see
+// opGetOvertaken) by `ov`: a lookup of a lower / the same / a higher new index, the ticker's body, two lookups, ... so that its
+// batch overlaps what is stored by then partially, completely, or not at all; then every index is looked up.  Twice per history.
+func (g *vGen) histOverlap(n0, adv, k, ov int) {
+	cid := g.cid("ovl")
+	total := n0 + 2*adv
+	g.histChain(total, n0-1, 3)
+	ch := make(chan *common.GuardianSet, 256)
+	gs, _ := g.boot(cid, ch, false)
+	if gs == nil {
+		return
+	}
+	for round := 0; round < 2; round++ {
+		cur := gs.currentGuardianSetIndex
+		top := n0 - 1 + (round+1)*adv
+		if top <= cur {
+			break
+		}
+		g.chainTo(top)
+		idx := cur + k
+		if idx > top {
+			idx = top
+		}
+		if idx < cur+1 {
+			idx = cur + 1
+		}
+		lower := cur + 1 + g.r.Intn(idx-cur)
+		if lower >= idx && idx > cur+1 {
+			lower = idx - 1
+		}
+		g.opGetOvertaken(cid, gs, ch, idx, func() {
+			switch ov {
+			case 0:
+				g.opGet(cid, gs, ch, lower, true)
+			case 1:
+				g.opGet(cid, gs, ch, idx, true)
+			case 2:
+				g.opGet(cid, gs, ch, top, true)
+			case 3:
+				g.opFetch(cid, gs, uint32(cur+1))
+			case 4:
+				g.opGet(cid, gs, ch, cur+1, true)
+				if idx-1 > cur+1 {
+					g.opGet(cid, gs, ch, idx-1, true)
+				}
+			case 5:
+				g.opGet(cid, gs, ch, lower, true)
+				g.opFetch(cid, gs, uint32(gs.currentGuardianSetIndex+1))
+			default: // the other lookup fails at the chain: nothing is stored in between
+				g.chain.failAt[uint32(cur+1)] = true
+				g.opGet(cid, gs, ch, lower, true)
+				g.chain.failAt = map[uint32]bool{}
+			}
+		})
+		g.lookupAll(cid, gs, ch, total)
+		ov = (ov + 3) % len(vOvertakers)
+	}
+}
+
+func TestVerifGsHist(t *testing.T) {
+	seed, _ := strconv.ParseInt(os.Getenv("VERIF_SEED"), 10, 64)
+	thorough := os.Getenv("VERIF_TIER") == "thorough"
+	f, err := os.Create(filepath.Join(os.Getenv("VERIF_OUT"), "explorer_hist.cases"))
+	if err != nil {
+		t.Fatal(err)
+	}
+	defer f.Close()
+	g := &vGen{r: rand.New(rand.NewSource(seed)), w: bufio.NewWriterSize(f, 1<<20), chain: vNewChain(), t: t}
+	defer g.chain.srv.Close()
+	defer g.w.Flush()
+	r := g.r
+	rounds := 1
+	if thorough {
+		rounds = 12
+	}
+	// 1. does the implementation have several chain requests in flight at once?  One gated start-up + catch-up per catch-up
+	// path; a client that asks for one set after the other costs two grace periods per probe and is never gated again.
+	concurrent := false
+	for how := 0; how < 2; how++ {
+		if g.histBoot(3+r.Intn(2), 3, how, true) > 1 {
+			concurrent = true
+		}
+		g.w.Flush()
+	}
+	for round := 0; round < rounds; round++ {
+		// 2. start-up and multi-set catch-up (gated again only for a client that fetches concurrently)
+		for how := 0; how < 3; how++ {
+			g.histBoot(2+r.Intn(5), 2+r.Intn(3), how, concurrent)
+			g.w.Flush()
+		}
+		// 3. far-ahead lookups: distances around every power of two up to 32, and a random one
+		dists := []int{8, 9, 10, 16, 17, 33, 9 + r.Intn(28)}
+		if !thorough {
+			dists = []int{8, 9, 17, []int{10, 16, 33}[r.Intn(3)], 9 + r.Intn(28)}
+		}
+		for _, d := range dists {
+			g.histFar(1+r.Intn(3), d, r.Intn(4))
+			g.w.Flush()
+		}
+		// 4. overtaken lookups: every overtaker, k = 2..4
+		for ov := range vOvertakers {
+			adv := 2 + r.Intn(4)
+			g.histOverlap(1+r.Intn(3), adv, 2+r.Intn(adv-1), ov)
+			g.w.Flush()
 		}
 	}
 }
